@@ -132,8 +132,25 @@ def gen_cmaps(chk, tlc_maps):
             out.append(cmap_case(0, m, rng))
     N = 260 if thorough else 70
     for _ in range(N):
-        kind = rng.choice(["dense", "runs", "sparse", "ident", "bmp-edge", "big", "supp"])
+        kind = rng.choice(["dense", "runs", "runmix", "runmix", "sparse", "ident", "bmp-edge", "big", "supp"])
         m = {}
+        if kind == "runmix":
+            # ONE run of consecutive code points made of alternating stretches: long consecutive-glyph-id stretches
+            # (worth an idDelta segment of their own) and short scattered ones (glyphIdArray) - the shape on which
+            # format 4's range splitting has to fill every gap between the segments it carves out
+            c = rng.choice([0x20, 0x100, 0x4E00, 0xFF00 - 200])
+            g = rng.randint(1, 2000)
+            for k in range(rng.randint(3, 7)):
+                if k % 2 == 0:
+                    ln = rng.choice([5, 9, 12, 30])
+                    for i in range(ln):
+                        m[c + i] = g + i
+                    g += ln + rng.randint(1, 50)
+                else:
+                    ln = rng.randint(1, 6)
+                    for i in range(ln):
+                        m[c + i] = rng.randint(3000, 9000)
+                c += ln
         if kind == "dense":  # consecutive codes -> arbitrary gids (glyphIdArray segments, splitRange thresholds)
             start = rng.choice([0, 32, 0x4E00, 0xFFF0 - 40])
             for i in range(rng.choice([1, 2, 3, 4, 5, 7, 8, 9, 16, 40])):
@@ -515,6 +532,12 @@ def gen_misc(chk):
     for _ in range(500 if chk.tier == "thorough" else 160):
         npts = rng.choice([1, 2, 5, 40, 130, 300])
         pts = sorted(rng.sample(range(npts), rng.randint(1, npts))) if rng.random() < 0.7 else list(range(npts))
+        if _ % 4 == 0:
+            # the packed point COUNT switches from one to two bytes at 128: sparse tuples referencing exactly
+            # 126..129 (and 255..257) points of a larger glyph
+            k = [126, 127, 128, 129, 255, 256, 257][(_ // 4) % 7]
+            npts = k + rng.choice([1, 3, 40])
+            pts = sorted(rng.sample(range(npts), k))
         coords = [None] * npts
         if rng.random() < 0.5:
             for p in pts:
